@@ -44,6 +44,10 @@ Definition norm_pre (f : limbs) : Prop :=
 (* a function returned (no Panic: in particular the loop fuel sufficed) a value with Q *)
 Definition returns {A} (Q : A -> Prop) (r : res A) : Prop := exists a, r = Val a /\ Q a.
 
+(* the 32 bytes GetB32 writes, as a list (r[0] first: most significant) *)
+Definition l32 (t : Z * Z * Z * Z * Z * Z * Z * Z * Z * Z * Z * Z * Z * Z * Z * Z * Z * Z * Z * Z * Z * Z * Z * Z * Z * Z * Z * Z * Z * Z * Z * Z) : list Z :=
+  let '(r0, r1, r2, r3, r4, r5, r6, r7, r8, r9, r10, r11, r12, r13, r14, r15, r16, r17, r18, r19, r20, r21, r22, r23, r24, r25, r26, r27, r28, r29, r30, r31) := t in [r0; r1; r2; r3; r4; r5; r6; r7; r8; r9; r10; r11; r12; r13; r14; r15; r16; r17; r18; r19; r20; r21; r22; r23; r24; r25; r26; r27; r28; r29; r30; r31].
+
 (* what Normalize returns for a Field standing for V *)
 Definition norm_post (V : Z) (l : limbs) : Prop := canon l /\ val l = V mod p.
 
